@@ -17,5 +17,6 @@ CONSTANTS
   NilPacketSock = TRUE
   CloseWaits = TRUE
   ErrAware = TRUE
+  RecheckAfterRecv = FALSE
   AcceptErrors = 1
 PROPERTIES EventuallySettled GoroutinesEnd NoStarvation
